@@ -1,0 +1,17 @@
+//go:build verif
+
+package conv
+
+// Contracts for the verifier in /verif (comment-only file; no declarations).
+
+//@ func IntsToUints(ints) returns (r)
+//@   assigns nothing
+//@   fresh r
+//@   ensures [C08.conv-ints] len(r) == len(ints) && forall(k, 0, len(ints), r[k] == ints[k])
+//@   loop 0 invariant [C08.conv-loop] -1 <= rangeindex && rangeindex < len(ints) && len(result) == len(ints) && forall(k, 0, rangeindex + 1, result[k] == ints[k])
+
+//@ func UintsToInts(uints) returns (r)
+//@   assigns nothing
+//@   fresh r
+//@   ensures [C08.conv-uints] len(r) == len(uints) && forall(k, 0, len(uints), r[k] == uints[k] && r[k] >= 0)
+//@   loop 0 invariant [C08.conv-loop] -1 <= rangeindex && rangeindex < len(uints) && len(result) == len(uints) && forall(k, 0, rangeindex + 1, result[k] == uints[k] && result[k] >= 0)
